@@ -234,11 +234,15 @@ class disassembler(object):
         # self.indent = 0
         self.specs = [self.setup(m.ISPECS) for m in specmodules]
         # del self.indent
+        # the trees above are laid out for the fetch endianness in force now; if endian()
+        # gives the other one later (runtime setting), trees for that layout are built on demand:
+        self._specmodules = specmodules
+        self._trees = {self.endian(): self.specs}
         # some arch like x86 require a stateful decoding due to optional prefixes,
         # so we keep an __i instruction for decoding until a non prefix ispec is used.
         self.__i = None
 
-    def setup(self, ispecs):
+    def setup(self, ispecs, endian=None):
         """setup will (recursively) organize the provided ispecs list into an optimal tree so that
         __call__ can efficiently find the matching ispec format for a given bytestring
         (we don't want to search all specs until a match, so we need to separate formats as much
@@ -255,7 +259,9 @@ class disassembler(object):
             # self.indent -= 2
             return (0, ispecs)
         # find separating mask:
-        if self.endian() == -1:
+        if endian is None:
+            endian = self.endian()
+        if endian == -1:
             # in bigendian cases where not all instructions have the same length (like ARM),
             # then the MSB byte needs to be maxlen-justified. Hence, if a spec is shorter
             # than maxlen*8 bits, its mask and fix values need to be shifted up to a
@@ -281,7 +287,7 @@ class disassembler(object):
             return (0, list(l.values())[0])
         # logger.debug('%sfound %d branches',ind,len(l))
         for x, S in l.items():
-            l[x] = self.setup(S)
+            l[x] = self.setup(S, endian)
         # self.indent -=2
         return (f, l)
 
@@ -302,7 +308,11 @@ class disassembler(object):
             bs = bytestring[self.maxlen-1::-1]
         b = adjust(Bits(bs, bitorder=1))
         # get organized/optimized tree of specs:
-        fl = self.specs[self.iset(**kargs)]
+        trees = self._trees.get(e)
+        if trees is None:
+            trees = [self.setup(m.ISPECS, e) for m in self._specmodules]
+            self._trees[e] = trees
+        fl = trees[self.iset(**kargs)]
         while True:
             f, l = fl
             if f == 0:  # we are on a leaf...
